@@ -348,13 +348,24 @@ impl GraphEngine {
     }
 
     pub fn search_vector(&self, query: &[f32], k: usize) -> Result<Vec<(InternalNodeId, f32)>> {
-        vwrite!("pager", self.pager);
-        let mut pager = self.pager.write().unwrap();
-        let _vh11 = vheld!("pager");
-        vlock!("vector_index", self.vector_index);
-        let mut idx = self.vector_index.lock().unwrap();
-        let _vh12 = vheld!("vector_index");
-        idx.search(&mut *pager, query, k)
+        // The index keeps the vectors of deleted nodes; they must not be returned.  Ask for as
+        // many extra candidates as there are deleted nodes so that k live hits remain.
+        let snapshot = self.snapshot();
+        let deleted = snapshot.tombstoned_node_count();
+        let hits = {
+            vwrite!("pager", self.pager);
+            let mut pager = self.pager.write().unwrap();
+            let _vh11 = vheld!("pager");
+            vlock!("vector_index", self.vector_index);
+            let mut idx = self.vector_index.lock().unwrap();
+            let _vh12 = vheld!("vector_index");
+            idx.search(&mut *pager, query, k.saturating_add(deleted))?
+        };
+        Ok(hits
+            .into_iter()
+            .filter(|(id, _)| !snapshot.is_tombstoned_node(*id))
+            .take(k)
+            .collect())
     }
 
     pub fn scan_i2e_records(&self) -> Vec<I2eRecord> {
